@@ -80,7 +80,10 @@ fn book_gen(m: &HashMap<String, String>) {
         let trading = if profile == "toggle" || profile == "mixed" || unusual { rng.gen::<f64>() < 0.7 } else { true };
         // `wide`: a third of the histories start so close to the end of time that the clock reaches
         // u64::MAX (a legal forward move) in mid-history and stays there
-        let t0: u64 = if wide { if rng.gen_range(0..3) == 0 { u64::MAX - rng.gen_range(0..80u64) } else { 1 << 40 } } else { rng.gen_range(0..100) };
+        // (`toggle` / `mixed`: one history in ten starts just below the end of time too - disabled periods at clock value u64::MAX)
+        let t0: u64 = if wide { if rng.gen_range(0..3) == 0 { u64::MAX - rng.gen_range(0..80u64) } else { 1 << 40 } }
+                      else if (profile == "toggle" || profile == "mixed") && hi % 10 == 7 { u64::MAX - (hi as u64 % 40) }
+                      else { rng.gen_range(0..100) };
         let np = if rng.gen::<f64>() < 0.3 { n_prices + 3 } else { n_prices };
         let edge = profile == "edge" || (unusual && rng.gen::<f64>() < 0.4);
         let base = if edge {
